@@ -103,6 +103,15 @@ CHECKS = {
         'what a sample test cannot reach.',
    note=CTE_NOTE + ' Translator state = instance attributes + non-callable class attributes.',
    technique='stateless choice-tree exploration of the real pipeline + explicit-state BFS over translation histories against a fresh-translator reference'),
+ 'C12': dict(engine='CTE', category='model_checking', design_ref='5 C12',
+   text='For every explored execution the generated, erased and overwritten program are translated to their target '
+        'language by a fresh translator; the text is tokenized and scanned for class headers, val/var/def declarations with '
+        'or without a type, fun/def declarations with or without a result type, constructor calls with/without type '
+        'arguments, string literals and bracket balance, and compared per name (multisets) with an inventory computed from '
+        'the IR by a reflective walker. Couples C03/C04 to the text: an erased annotation must be absent, a carried one present.',
+   note=CTE_NOTE + ' Scanners cover: balance, classes and strings (all languages); variable/result typing (Kotlin, Scala, '
+        'Groovy def, Java var); constructor type arguments (all). Method/parameter/modifier inventories are not scanned.',
+   technique='stateless choice-tree exploration with per-language text scanners compared against an independent IR inventory'),
  'C13': dict(engine='CTE', category='model_checking', design_ref='5 C13',
    text='At every save point of every explored execution the live program goes through the real dump/load (and '
         '--replay path); snapshots, translations in 4 languages, a second dump, and the mutations replayed '
@@ -153,7 +162,7 @@ CHECKS = {
 }
 
 ENGINES = [
- {'name': 'CTE', 'path': 'mc/explore.py', 'serves_properties': ['C01', 'C02', 'C03', 'C04', 'C05', 'C07', 'C11', 'C13', 'C17', 'C18'],
+ {'name': 'CTE', 'path': 'mc/explore.py', 'serves_properties': ['C01', 'C02', 'C03', 'C04', 'C05', 'C07', 'C11', 'C12', 'C13', 'C17', 'C18'],
   'kind_free_text': 'stateless deviation-bounded explorer of the choice tree of the real pipeline (ChoiceSource replaces src.utils.random.r)'},
  {'name': 'javac-server', 'path': 'javasrv/CompileServer.java', 'serves_properties': ['C02', 'C14'],
   'kind_free_text': 'warm JVM compiling file sets with javax.tools (structured diagnostics) and com.sun.tools.javac.Main (CLI text)'},
